@@ -36,7 +36,7 @@ pub fn run(ctx: &Ctx) -> (Report, Meta) {
     let g = GenOpts { bidirectional_problems: true, max_span: 30.0, ..Default::default() };
 
     // ---------------- (a) max_step ----------------
-    let na = ctx.size(10_000, 600_000);
+    let na = ctx.size(40_000, 600_000);
     let rep = par_for(na, "C11", |i, rep| {
         let case_id = format!("maxstep/{}", i);
         if !ctx.want(&case_id) {
@@ -141,7 +141,7 @@ pub fn run(ctx: &Ctx) -> (Report, Meta) {
     });
 
     // ---------------- (b) first_step ----------------
-    let nb = ctx.size(10_000, 600_000);
+    let nb = ctx.size(40_000, 600_000);
     let rep_b = par_for(nb, "C11", |i, rep| {
         let case_id = format!("firststep/{}", i);
         if !ctx.want(&case_id) {
@@ -261,7 +261,7 @@ pub fn run(ctx: &Ctx) -> (Report, Meta) {
     });
 
     // ---------------- (c) max_steps ----------------
-    let nc = ctx.size(8_000, 500_000);
+    let nc = ctx.size(32_000, 500_000);
     let rep_c = par_for(nc, "C11", |i, rep| {
         let case_id = format!("budget/{}", i);
         if !ctx.want(&case_id) {
